@@ -201,6 +201,17 @@ static inline myth_thread_t __attribute__((always_inline)) myth_queue_pop(myth_t
 #if QUICK_CHECK_ON_POP
   MYTH_VERIF_POINT(MYTH_VS_Q_POP_QC);
   if (q->top <= q->base) {
+    if (q->base == 0) {
+      /* empty at the lower boundary: myth_queue_trypass refuses to insert
+	 below index 0 and only the owner may move the window, so re-centre
+	 (same reset as in the slow path below) */
+      myth_wsqueue_lock_lock(&q->lock);
+      if (q->top <= q->base) {
+	q->top = q->size/2;
+	q->base = q->size/2;
+      }
+      myth_wsqueue_lock_unlock(&q->lock);
+    }
     return NULL;
   }
 #endif
